@@ -457,3 +457,12 @@ PROPS["C18"]["level_text"] += (" TestVF_C18LateAck: an upload whose server ackno
 for _t in PROPS["C08"]["tests"]:
     if _t["name"] == "TestVF_C08":
         _t["confirm_alone"] = True
+PROPS["C01"]["level_text"] += " One profile writes the single destination file to a medium that stops taking data for 3.3 s (timeout 2 s) once the first bytes are written: the transfer must succeed."
+PROPS["C03"]["level_text"] += " Reads continue behind an interrupt whose LF came in the same read; at the end whatever the reads left is handed on piece by piece (popBuffer) and must equal the rest of the stream."
+PROPS["C07"]["level_text"] += " In a quarter of the cases the receiver's link to the sender breaks at one of its first eight writes in the last round: pre-existing entries are still untouched."
+PROPS["C08"]["level_text"] += " Multi-block resumes are also run against a receiver that acknowledges names and hashes 1.8 s late each (timeout 3 s): they must succeed."
+PROPS["C13"]["level_text"] += " An outcome 'gave_up' puts the client's #fail: line (whole) right behind its action while the server's configuration comes with data behind it."
+PROPS["C15"]["level_text"] += " A source file may also shrink while its entry is being read (after 0-100 % of its payload has been produced): an error is due whenever part of it was still to come."
+PROPS["C17"]["level_text"] += " A third of the cases add in-band chatter both ways every 60 ms from the server's first tunnel line until the transfer is over: it must end within 22 s all the same."
+PROPS["C19"]["level_text"] += " In half of the cases the first thing after the hand-back is the user typing (keys with an erase, or a lone Ctrl-C) while the server stays quiet: all of it reaches the server."
+PROPS["C20"]["level_text"] += " The terminal may be resized while the bar is paused."
